@@ -469,26 +469,31 @@ class Bounds:
             if self.single_def(l) is not None or l in self.mut_borrowed:
                 continue
             for bb, k, rv in ds:
-                if rv["k"] == "use" and rv["op"]["k"] in ("copy", "move"):
+                binop, rb, rk = None, bb, k
+                if rv["k"] == "binop" and rv["op"] in ("Add", "Sub"):
+                    binop = rv
+                elif rv["k"] == "use" and rv["op"]["k"] in ("copy", "move"):
                     pl = rv["op"]["place"]
                     if len(pl["p"]) == 1 and isinstance(pl["p"][0], dict) and pl["p"][0].get("field") == "0":
                         sd = self.single_def(pl["l"])
                         if sd and sd[2]["k"] == "binop" and sd[2]["op"] in ("AddWithOverflow", "SubWithOverflow"):
-                            l2, r2 = sd[2]["l"], sd[2]["r"]
-                            src = l2["place"]["l"] if l2["k"] in ("copy", "move") and not l2["place"]["p"] else None
-                            nfollow = 0
-                            while src is not None and src != l and nfollow < 8:
-                                sdd = self.single_def(src)
-                                nfollow += 1
-                                if sdd and sdd[2]["k"] == "use" and sdd[2]["op"]["k"] in ("copy", "move") and not sdd[2]["op"]["place"]["p"]:
-                                    src = sdd[2]["op"]["place"]["l"]
-                                else:
-                                    break
-                            if src == l and \
-                                    r2["k"] == "const" and r2.get("int") is not None:
-                                c = r2["int"] if sd[2]["op"].startswith("Add") else -r2["int"]
-                                # the facts must be taken where the old value is read (the checked-add statement)
-                                out.append((bb, k, l, c, sd[0], sd[1]))
+                            binop, rb, rk = sd[2], sd[0], sd[1]
+                if binop is None:
+                    continue
+                l2, r2 = binop["l"], binop["r"]
+                src = l2["place"]["l"] if l2["k"] in ("copy", "move") and not l2["place"]["p"] else None
+                nfollow = 0
+                while src is not None and src != l and nfollow < 8:
+                    sdd = self.single_def(src)
+                    nfollow += 1
+                    if sdd and sdd[2]["k"] == "use" and sdd[2]["op"]["k"] in ("copy", "move") and not sdd[2]["op"]["place"]["p"]:
+                        src = sdd[2]["op"]["place"]["l"]
+                    else:
+                        break
+                if src == l and r2["k"] == "const" and r2.get("int") is not None:
+                    c = r2["int"] if binop["op"].startswith("Add") else -r2["int"]
+                    # the facts must be taken where the old value is read
+                    out.append((bb, k, l, c, rb, rk))
         self._self_inc = out
         return out
 
